@@ -250,36 +250,8 @@ TRUSTED = [
 ]
 
 
-def run_loop_check(chk, oracle_fn, focus, what, accept=lambda o: o == "true"):
-    """oracle_fn(n, links, impl_trace_coq) -> Coq expression; accept(parsed value) -> bool."""
-    quick = chk.tier == "quick"
-    ok_proofs = chk.proofs()
-    factor = 1 if ok_proofs else 4
-    build = cargo_build(["eng_world"])
-    if not build["ok"]:
-        ok, log = repo_builds_without_hooks()
-        if not ok:
-            return infrastructure_failure(chk.prop, "/repo does not compile even without hooks:\n" + log[-1500:])
-        chk.violation("harness no longer builds against /repo",
-                      "correspondence E1:eng_world cannot be built against the current tree\n" + build["log"][-3000:],
-                      failing_input=False)
-        return chk.finish(trusted_base=TRUSTED)
-    n_cases = (400 if quick else 6000) * factor
-    scs = []
-    # corpus first
-    cdir = os.path.join(ROOT, "corpus", chk.prop)
-    if os.path.isdir(cdir):
-        for f in sorted(os.listdir(cdir)):
-            if f.endswith(".json"):
-                scs.append(json.load(open(os.path.join(cdir, f))))
-    for sc in scs:
-        sc["msgs"] = {int(k): v for k, v in sc["msgs"].items()}
-    ncorpus = len(scs)
-    for k in range(n_cases):
-        scs.append(gen_scenario(chk.rng, focus if k % 2 else "mixed"))
-    scs = json.loads(json.dumps(scs))  # normalise tuples to lists
-    for sc in scs:
-        sc["msgs"] = {int(k): v for k, v in sc["msgs"].items()}
+def compare_build(chk, scs, build, tag, oracle_fn, accept, what, distinct):
+    compared = discarded = 0
     impl = run_harness(build, "eng_world", [to_line(sc) for sc in scs], shards=8)
     exprs = []
     for sc, it in zip(scs, impl):
@@ -287,8 +259,6 @@ def run_loop_check(chk, oracle_fn, focus, what, accept=lambda o: o == "true"):
         ms = ", ".join(model_expr(sc, o) for o in orders(n))
         exprs.append(f"({ms}, {oracle_fn(n, links_coq(sc), it)})")
     res = coq_eval(chk.prop, IMPORTS, exprs, scope="nat_scope")
-    distinct = set()
-    compared = discarded = 0
     for idx, (sc, it, r) in enumerate(zip(scs, impl, res)):
         n = len(sc["actors"])
         t = parse_term(r)
@@ -305,7 +275,7 @@ def run_loop_check(chk, oracle_fn, focus, what, accept=lambda o: o == "true"):
         if not accept(oracle):
             chk.violation(f"{what}: oracle rejects the implementation's trace (verdict {show_term(oracle)})",
                           f"{chk.prop} oracle rejects the implementation trace; verdict = {show_term(oracle)}\n"
-                          + json.dumps(desc, indent=1) + "\nreplay: echo '<scenario>' | harness/target/debug/eng_world\n")
+                          + json.dumps(desc, indent=1) + f"\nbuild: {tag}" + "\nreplay: echo '<scenario>' | harness/target/debug/eng_world\n")
             continue
         vs = [per_actor(m, n) for m in models]
         v1 = vs[0]
@@ -333,6 +303,49 @@ def run_loop_check(chk, oracle_fn, focus, what, accept=lambda o: o == "true"):
                           + json.dumps(desc, indent=1), failing_input=False)
         if len(chk.coverage["samples"]) < 2 and len(ph) >= 5:
             chk.coverage["samples"].append({"scenario": to_line(sc), "impl_trace": it})
+    return compared, discarded
+
+
+def run_loop_check(chk, oracle_fn, focus, what, accept=lambda o: o == "true"):
+    """oracle_fn(n, links, impl_trace_coq) -> Coq expression; accept(parsed value) -> bool.
+    quick: default feature build; thorough: also the `async-trait` build of ractor (same scenarios)."""
+    quick = chk.tier == "quick"
+    ok_proofs = chk.proofs()
+    factor = 1 if ok_proofs else 4
+    env_feats = tuple(x for x in os.environ.get("RV_FEATURES", "").split(",") if x)
+    feature_sets = [env_feats] if (quick or env_feats) else [(), ("async-trait",)]
+    n_cases = (400 if quick else 6000) * factor
+    scs = []
+    # corpus first
+    cdir = os.path.join(ROOT, "corpus", chk.prop)
+    if os.path.isdir(cdir):
+        for f in sorted(os.listdir(cdir)):
+            if f.endswith(".json"):
+                scs.append(json.load(open(os.path.join(cdir, f))))
+    ncorpus = len(scs)
+    for k in range(n_cases):
+        scs.append(gen_scenario(chk.rng, focus if k % 2 else "mixed"))
+    scs = json.loads(json.dumps(scs))  # normalise tuples to lists
+    for sc in scs:
+        sc["msgs"] = {int(k): v for k, v in sc["msgs"].items()}
+    distinct = set()
+    compared = discarded = 0
+    chk.coverage["builds"] = []
+    for features in feature_sets:
+        build = cargo_build(["eng_world"], features=features)
+        tag = "+".join(features) or "default"
+        chk.coverage["builds"].append(tag)
+        if not build["ok"]:
+            ok, log = repo_builds_without_hooks()
+            if not ok:
+                return infrastructure_failure(chk.prop, "/repo does not compile even without hooks:\n" + log[-1500:])
+            chk.violation(f"harness no longer builds against /repo (features {tag})",
+                          "correspondence E1:eng_world cannot be built against the current tree\n" + build["log"][-3000:],
+                          failing_input=False)
+            return chk.finish(trusted_base=TRUSTED)
+        c, d = compare_build(chk, scs, build, tag, oracle_fn, accept, what, distinct)
+        compared += c
+        discarded += d
     chk.coverage["traces_validated_against_impl"] = compared
     chk.coverage["discarded_order_sensitive"] = discarded
     chk.coverage["corpus"] = ncorpus
